@@ -803,6 +803,17 @@ def main(cid):
             if x.get("near_std_change") or shown < 3:
                 shown += 0 if x.get("near_std_change") else 1
                 verdict.violation({"kind": "property (generated zone): " + x["why"], "input": x})
+        if cid == "C05":
+            nfz, fbad2 = G.run_foreign(o, tier)
+            evals += nfz
+            cov_extra["zones_without_is_ambiguous"] = {
+                "cases": nfz, "failures": len(fbad2),
+                "imaginary_times_reported_ambiguous_by_the_fallback": G.run_foreign.gap_reported_ambiguous,
+                "note": "stdlib zoneinfo.ZoneInfo read from corpus bytes and a hand-written PEP 495 tzinfo: the module-level "
+                        "fallback of datetime_ambiguous, datetime_exists, resolve_imaginary against the extracted SPEC; "
+                        "datetime_ambiguous is graded on existing wall times only"}
+            for x in fbad2[:3]:
+                verdict.violation({"kind": "property (zone without is_ambiguous): " + x["why"], "input": x})
         if cid == "C04":
             nt, tbad = G.thread_stress(1.5 if tier == "quick" else 6.0)
             evals += nt
